@@ -570,6 +570,27 @@ def serial_loss_exception():
     return serial.SerialException("device reports readiness to read but returned no data (device disconnected?)")
 
 
+_LOSS_NO = [0]
+LOSS_CLASSES_SEEN = {}
+
+
+def link_loss(kind, write=False):
+    """The error a lost link shows as - by turns every class the operating system / pyserial reports one with (a client
+    that reacts to 'an exception' reacts to all of them: reset by peer, broken pipe, ETIMEDOUT after keep-alives ran out,
+    host / network unreachable, aborted; for the serial port pyserial's SerialException in its two spellings and a bare EIO)."""
+    _LOSS_NO[0] += 1
+    n = _LOSS_NO[0]
+    if kind == "waveshare":
+        e = [serial_loss_exception(), serial.SerialException("read failed: [Errno 5] Input/output error"), serial_loss_exception(),
+             serial.SerialException("write failed: [Errno 5] Input/output error") if write else OSError(5, "Input/output error")][n % 4]
+    else:
+        first = BrokenPipeError(32, "Broken pipe") if write else ConnectionResetError(104, "Connection reset by peer")
+        e = [first, TimeoutError(110, "Connection timed out"), first, ConnectionAbortedError(103, "Software caused connection abort"),
+             first, OSError(113, "No route to host"), ConnectionResetError(104, "Connection reset by peer"), OSError(101, "Network is unreachable")][n % 8]
+    LOSS_CLASSES_SEEN[type(e).__name__ + (":" + str(e.errno) if getattr(e, "errno", None) else "")] = LOSS_CLASSES_SEEN.get(type(e).__name__, 0) + 1
+    return e
+
+
 def stalled(stats, acc, w, what=""):
     """A session in which one loop iteration did not return for vloop.STALL_SECONDS of wall clock: the client code
     monopolised the event loop. Returns True when that was the case (and has been reported)."""
@@ -737,7 +758,7 @@ def c06_stream_clause(spec, acc):
                 conn = sim.conns[0]
                 conn.feed(stream[:lost_at])
                 await asyncio.sleep(0.2)
-                conn.reset(serial_loss_exception() if kind == "waveshare" else ConnectionResetError(104, "reset by peer"))
+                conn.reset(link_loss(kind))
                 for _ in range(6000):
                     if len(sim.conns) > 1 and sim.client.state.name == "CONNECTED":
                         break
